@@ -23,6 +23,8 @@ mod actor;
 
 pub(crate) use self::actor::{Config as RelayActorConfig, HomeRelayWatch, RelayConnectionState};
 use self::actor::{RelayActor, RelayActorMessage, RelayRecvDatagram, RelaySendItem};
+#[cfg(feature = "verif-hooks")]
+pub(crate) use self::actor::VerifRelayActor;
 
 type RelayAddrWatcher =
     n0_watcher::Map<n0_watcher::Direct<Option<RelayStatus>>, Option<(RelayUrl, EndpointId)>>;
